@@ -354,12 +354,44 @@ end
 /-! ## what a round trip preserves -/
 
 mutual
-/-- the tree as an `all_attrs` export shows it: ids forgotten, attributes as `describe` lists them -/
-def canon : Tree → Tree
-  | .node _ n a cs => .node 0 n (describe a) (canonL cs)
-def canonL : List Tree → List Tree
+/-- the tree with ids forgotten and every attribute list replaced by `f attrs` -/
+def canonWith (f : Attrs → Attrs) : Tree → Tree
+  | .node _ n a cs => .node 0 n (f a) (canonWithL f cs)
+def canonWithL (f : Attrs → Attrs) : List Tree → List Tree
   | [] => []
-  | t :: ts => canon t :: canonL ts
+  | t :: ts => canonWith f t :: canonWithL f ts
 end
+
+/-- the tree as an `all_attrs` export shows it: ids forgotten, attributes as `describe` lists them -/
+def canon (t : Tree) : Tree := canonWith describe t
+
+/-- what a DataFrame row gives back: for each column in order, the node's public attribute of
+    that name unless it is null (`name` and the path column are never attributes) -/
+def rowAttrs (pathCol : Str) (cols : List Str) (a : Attrs) : Attrs :=
+  filterRowAttrs pathCol (cols.map fun c => (c, getAttr (describe a) c))
+
+/-! ## hypotheses of the round-trip theorems -/
+
+mutual
+/-- `P` holds of every node of the tree -/
+def AllNodes (P : Tree → Prop) : Tree → Prop
+  | .node i n a cs => P (.node i n a cs) ∧ AllNodesL P cs
+def AllNodesL (P : Tree → Prop) : List Tree → Prop
+  | [] => True
+  | t :: ts => AllNodes P t ∧ AllNodesL P ts
+end
+
+/-- what the `Node` class guarantees of every node: a non-empty name, attribute keys pairwise
+    distinct (`__dict__`), sibling names pairwise distinct -/
+def NodeOK (t : Tree) : Prop :=
+  t.name ≠ [] ∧ (t.attrs.map Prod.fst).Nodup ∧ (t.children.map Tree.name).Nodup
+
+/-- the name does not contain the separator -/
+def SepFree (sep : Char) (t : Tree) : Prop := sep ∉ t.name
+
+/-- the options of a full export that the matching constructor reads back -/
+def fullOpts (pathCol : Str) : Opts :=
+  { pathCol := pathCol, nameKey := strName, parentKey := [], attrDict := [], allAttrs := true,
+    maxDepth := 0, skipDepth := 0, leafOnly := false }
 
 end Export
